@@ -259,13 +259,16 @@ def confirm(sc, r, evaluate, base, max_runs=4):
     Returns (violations to report, note or None)."""
     first = evaluate(sc, r)
     if not first: return [], None
+    # a scenario whose course depends on a choice nextest makes itself (which of two pending signals it handles first) may ask
+    # for more re-runs before a violation is given up as not reproduced
+    max_runs = max(max_runs, int(sc.meta.get("confirm_runs", 0) or 0)) if isinstance(getattr(sc, "meta", None), dict) else max_runs
     runs = [first]
     k = 0
     while len(runs) < max_runs:
         evaluable = [vs for vs in runs if not any(v.get("kind") == "machinery" for v in vs)]
         real = [vs for vs in evaluable if vs]
         if len(evaluable) >= 2 and (len(real) >= 2 or len(real) == 0): break
-        if len(evaluable) >= 3: break
+        if len(evaluable) >= max(3, max_runs - 1): break
         r2 = run(sc, os.path.join(base, f"rerun-{sc.name}-{k}")); k += 1
         if getattr(r2, "error", None): continue
         runs.append(evaluate(sc, r2))
